@@ -17,7 +17,11 @@ def handle (j : Json) : Except String Json := do
         | "interleave" => pure OpenMode.interleave | "suffix" => pure OpenMode.suffix | _ => throw "oc mode"
       let (wp, wn) ← parseParticle (← o.getObjVal? "wild")
       let leaf ← match wp with | .leaf l _ _ => pure l | _ => throw "oc wildcard"
-      pure (({ mode, wild := wp.pid } : OC), some leaf, nodes ++ wn)
+      let strict := (getStr o "pc").toOption == some "strict"
+      let globals ← match o.getObjVal? "globals" with
+        | .ok g => (← g.getArr?).toList.mapM parseQN
+        | .error _ => pure []
+      pure (({ mode, wild := wp.pid, strict, globals } : OC), some leaf, nodes ++ wn)
   let A := mkArena n nodes
   let lang (w : List QN) : Bool := match wl with
     | none => inModel p w
